@@ -199,7 +199,7 @@ def run_case(prop, case, spec, scratch, stats):
                 return out, feats, digest
             ops = case["ops_after"]
             # a cleared on-file index is also closed and reopened at some point of what follows (the fresh one is not)
-            reopen_at = rng.randrange(len(ops) + 1) if a.cfg["backend"] == "file" and rng.random() < 0.5 else None
+            reopen_at = rng.randrange(1, len(ops) + 1) if (a.cfg["backend"] == "file" and ops and not case.get("big") and rng.random() < 0.3) else None
             for i, op in enumerate(ops):
                 if i == reopen_at:
                     a.reopen()
